@@ -25,7 +25,9 @@ def reset(report=MAIN_REPORT):
         This tool's data
     """
     report[TOOL_NAME] = {
-        'seed': 0
+        'seed': 0,
+        # How many pools have been created so far (their default positions)
+        'pools': 0
     }
     return report[TOOL_NAME]
 
